@@ -40,8 +40,12 @@ def failures_of(r, ill=False):
         if r["err"] == "panic":
             out.append({"class": "reader-panic", "text": vc.show(r["text"]), "in": r["text"]})
         elif r.get("src") == "long":
-            if r["err"] == "nil" and r["cnt"] != r["expect_cnt"]:
-                out.append({"class": "reader-silent-stop", "linelen": r["linelen"], "cnt": r["cnt"], "expected": r["expect_cnt"]})
+            # a valid line that does not fit bufio.Scanner's 64 KiB buffer counts as the first malformed line
+            rawlen = r["linelen"] + (1 if r["tail"] == "0d0a" else 0)
+            exp = (1, "err") if rawlen >= 65536 else (r["expect_cnt"], "nil")
+            if (r["cnt"], r["err"]) != exp:
+                out.append({"class": "reader-silent-stop" if r["err"] == "nil" else "reader-long-line", "linelen": r["linelen"],
+                            "cnt": r["cnt"], "err": r["err"], "expected": list(exp)})
         else:
             per = r.get("per_line") or []
             kbad = next((i for i, e in enumerate(per) if e["c"] != "ok"), None)
@@ -68,11 +72,7 @@ def cls_triple_pred_id_respaced(f):
     return re.search(rb"\] +[/\"]", pid) is not None
 
 
-def cls_scanner_too_long(f):
-    return f["class"] == "reader-silent-stop" and f["linelen"] >= 65536
-
-
-CLASSIFIERS = {"triple_pred_id_respaced": cls_triple_pred_id_respaced, "scanner_too_long": cls_scanner_too_long}
+CLASSIFIERS = {"triple_pred_id_respaced": cls_triple_pred_id_respaced}
 
 
 def replay_rows(witness):
@@ -118,10 +118,12 @@ def run(ctx):
     for i in bad[:5]:
         ctx.violation({"kind": "model-vs-implementation", "case": vc.strip(rows[i]),
                        "explain": "the Gallina parsers (evaluated in Coq with the library answers shipped by the harness) and the Go code disagree"})
-    if thorough:
-        rows_long = long_rows()
-    else:
-        rows_long = []
+    rows_long = long_rows()
+    lawcnt, lawfails = vc.check_laws(rows)
+    for f in lawfails[:3]:
+        ctx.violation({"kind": "oracle-law-fails", "explain": "a law of the Go library assumed by C15_accept_stable (accept_laws) does not hold on this sample",
+                       "failing_input": f})
+    ctx.cov["oracle_law_samples"] = lawcnt
     # the property itself, on the implementation's observations
     findings = vcheck.known_findings("C15")
     fails = []
